@@ -7,24 +7,56 @@ import warnings
 
 HERE = os.path.dirname(os.path.dirname(os.path.dirname(os.path.abspath(__file__))))
 
+# property -> lower-case substrings of a finding's relation (+ why) text that attribute the finding to the property.
+# A key must be specific: a substring that also occurs in texts about another property mis-attributes findings (history: 'repeat'
+# sent "perfect estimate" findings to C15; 'case' sent key-transposition findings to C16; 'negat' sent "non-negative" to C09;
+# 'split' sent the chord join/split round trip to C12; 'within the window' sent the P-score definition to C05).
+# Audit after every change: tools_probe_selftest.py --audit (classification of every relation literal of harness/oracles/*.py)
+# and --sweeps (every sweep on the unchanged tree: no classified finding may be non-known).
 KEYS = {
-    'C01': ['in [0, 1]', '<= 1', '>= 0', 'finite', 'non-negative', 'nan exactly', 'binary', 'exactly 0 or 1', 'score in', 'bounded'],
-    'C02': ['perfect estimate', 'est = ref', 'identical partitions', 'copy of itself', 'self-score', 'against itself'],
+    'C01': ['in [0, 1]', '<= 1', '>= 0', 'finite', 'non-negative', 'nan exactly', 'binary', 'exactly 0 or 1', 'score in', 'bounded',
+            '2|ref|/(|ref|+|est|)', 'in [0,1] when', 'are bools'],
+    'C02': ['perfect estimate', 'est = ref', 'identical partitions', 'copy of itself', 'self-score', 'against itself',
+            'scores 1 with itself', 'compared with itself scores'],
+    'C03': ['documented set of metric names', 'values are real scalars', 'equals the documented metric call'],
     'C04': ['textbook formula', 'equals np.where', 'definition', 'f = util.f_measure', 'harmonic mean', 'documented table', 'published',
-            'brute-force', 'brute force', 'triple'],
-    'C05': ['maximum', 'one-to-one', 'at most once', 'within the window', 'satisfies the note predicate', 'reordering of the items', 'kuhn',
+            'brute-force', 'brute force', 'triple', 'beat error normalised', 'keeps exactly the beats', 'original, off-beat, double',
+            'sum of gaussians', 'pair count of the quantised trains', 'of the first n estimates', 'median / mean absolute deviation',
+            'documented relationship table', 'empty side scores 0', 'empty side gives'],
+    'C05': ['maximum', 'one-to-one', 'at most once', 'pair is within the window', 'satisfies the note predicate', 'reordering of the items', 'kuhn',
             'sorted by reference', 'matching is sorted', 'every pair is feasible'],
-    'C06': ['swapping', 'exchang', 'symmetric in', 'tp(ref, est) == tp(est, ref)', 'ref-to-est of'],
+    'C06': ['swapping', 'exchang', 'symmetric in (ref, est)', 'tp(ref, est) == tp(est, ref)', 'ref-to-est of', 'swap of reference and estimate'],
     'C07': ['larger window never', 'widening', 'strict=true matches', 'with offsets <=', 'subset of the plain', 'raw pitch accuracy <=',
-            'chroma tp >= raw', 'never lowers', 'implies one', 'non-decreasing'],
-    'C08': ['offset to all times', 'time shift', 'reordering', 'renamed', 'relabel', 'permut', 'label names'],
-    'C09': ['octave', 'scaling all pitches', 'same amount to all midi', 'transpos', 'enharmonic', 'spell', 'sign flip', 'negat'],
-    'C12': ['re-cut', 'recut', 'split', 'rescal', 'scale invariance', 'every comparable'],
-    'C14': ['does not raise', 'raises only', 'without an exception', 'raises no exception', 'preserve validity', 'rejected'],
-    'C15': ['does not modify', 'repeatab', 'bit-identical', 'uninitial'],
-    'C16': ['textbook formula', 'vmeasure == nce', 'harmonic mean', 'mi >= 0', 'case'],
+            'chroma tp >= raw', 'never lowers', 'implies one', 'non-decreasing in', 'cml <= aml', 'continuous <= total',
+            'cemgil <= cemgil best', 'monotone in tol', 'monotone in window'],
+    'C08': ['offset to all times', 'time shift', 'reordering', 'renamed', 'renaming', 'relabel', 'permut', 'label names',
+            'same offset to all beats', 'common onset offset', 'shifting all timestamps', 'symmetric in the two estimated tempi'],
+    'C09': ['octave', 'scaling all pitches', 'same amount to all midi', 'transpos', 'enharmonic', 'spell', 'sign flip', 'negating',
+            'joint cent shift', 'letter + sharps', 'letter + accidentals'],
+    'C10': ['harte syntax', 'quality shorthands as documented', 'strict_bass_intervals', 'sound encoding', 'join(split(label))',
+            'raises only invalidchordexception'],
+    'C11': ['= 1 implies', 'x is always ignored', 'never gives 0', 'never a mirex mismatch', 'returns 1, 0 or -1', 'depends on the reference alone',
+            'documented vocabulary of', 'list call equals per-pair calls'],
+    'C12': ['re-cut', 'recut', 'splitting', 'rescal', 'scale invariance', 'every comparable', 'scaling all weights', 'weight of an ignored row',
+            'weighted mean over', 'carries no weight', 'cutting a segment in two with the same label'],
+    'C13': ['first output start', 'last output end', 'output is time-ordered', 'strictly positive durations', 'one label per', 'output is non-empty',
+            'nothing outside [t_min', 'keeps its label', 'sorted union of both boundary sets', 'total duration is conserved',
+            'label of the (closed) interval', 'label of the interval containing', 'label the annotation had over', 'consecutive pairs', 'roundtrip',
+            'label_at', 'half-open intervals', 'boundaries of a contiguous segmentation', 'labels are returned iff', 'sample times =',
+            't_min >= t_max raises', 'empty input without both bounds', 'valueerror iff', 'sample times are non-decreasing',
+            'non-decreasing grid is accepted', 'unique ascending boundaries', 'repaired input gives the recorded output'],
+    'C14': ['does not raise', 'do not raise', 'raises only', 'without an exception', 'raises no exception', 'preserve validity', 'rejected',
+            'returns a score', 'returns scores on valid input', 'only valueerror escapes', 'valid arrays are accepted', 'no exception for a non-empty'],
+    'C15': ['does not modify', 'is not modified', 'repeatab', 'bit-identical', 'uninitial', 'does not depend on earlier calls'],
+    'C16': ['textbook formula', 'vmeasure == nce', 'harmonic mean', 'mi >= 0', 'case of the labels'],
     'C17': ['triple', 'brute-force', 'brute force'],
-    'C18': ['e_tot', 'accuracy <= min', 'tp <= min', 'nearest source time', 'chroma tp >= raw', 'one output frame'],
+    'C18': ['e_tot', 'accuracy <= min', 'tp <= min', 'nearest source time', 'chroma tp >= raw', 'one output frame',
+            'same number of frames after resampling', 'returns 14 scores'],
+    'C19': ['components add up to the estimate', 'proj(', 'is multiplied by', 'perm is a permutation', 'perm undoes', 'perm maximises', 'perm follows',
+            'sdr > 200', 'silent window', 'non-framewise result', 'empty arrays', 'singular gram', 'shape (nsrc', 'fewer than 2 windows',
+            'reordering of the estimates'],
+    'C20': ['path and file object', 'well-formed file loads', 'round trip', 'wrong number of columns', 'malformed row raises', 'names the faulty row',
+            'violating content', 'pattern file loads', 'malformed data row', 'without exactly two columns'],
 }
 
 
@@ -284,6 +316,46 @@ def sw_segment_relabel(rng, n):
 
 
 @_quiet
+def sw_many_labels(rng, n):
+    """more than 256 distinct labels in one annotation (guards against narrow integer label codes): renaming the labels by a bijection
+    that changes their alphabetical order leaves the L-measure and every segment labelling score unchanged (C08)"""
+    import numpy as np
+    from mir_eval import segment as S, hierarchy as H
+    k = rng.choice([260, 300, 520])
+    bounds = np.arange(k + 1, dtype=float)
+    iv = np.column_stack([bounds[:-1], bounds[1:]])
+    names = ['s%04d' % i for i in range(k)]
+    # the reference repeats some labels far apart (i and i + 256 are the pairs a uint8 code would confuse)
+    ref_labels = [names[i % (k - 3)] for i in range(k)]
+    est_labels = [names[(i // 2) % (k - 5)] for i in range(k)]
+    perm = list(names)
+    rng.shuffle(perm)
+    m = dict(zip(names, perm))
+    out = []
+    try:
+        a = S.evaluate(iv, ref_labels, iv, est_labels, frame_size=1.0)
+        b = S.evaluate(iv, [m[x] for x in ref_labels], iv, [m[x] for x in est_labels], frame_size=1.0)
+        for key in a:
+            if key.startswith(('Pairwise', 'Rand', 'Adjusted', 'Mutual', 'Normalized', 'NCE', 'V')):
+                x, y = float(a[key]), float(b[key])
+                if not ((x != x and y != y) or abs(x - y) <= 1e-9):
+                    out.append({'function': 'segment.evaluate', 'relation': 'renaming %d distinct segment labels by a bijection leaves %r unchanged' % (k, key),
+                                'input': {'n_labels': k, 'ref_labels': 'names[i %% %d]' % (k - 3), 'est_labels': 'names[(i // 2) %% %d]' % (k - 5)},
+                                'observed': [x, y], 'why': ''})
+                    return out
+        coarse = np.array([[0.0, float(k)]])
+        la = H.lmeasure([coarse, iv], [['all'], ref_labels], [coarse, iv], [['all'], est_labels], frame_size=1.0)
+        lb = H.lmeasure([coarse, iv], [['all'], [m[x] for x in ref_labels]], [coarse, iv], [['all'], [m[x] for x in est_labels]], frame_size=1.0)
+        if any(abs(float(x) - float(y)) > 1e-9 for x, y in zip(la, lb)):
+            out.append({'function': 'hierarchy.lmeasure', 'relation': 'renaming %d distinct segment labels by a bijection leaves the L-measure unchanged' % k,
+                        'input': {'n_labels': k}, 'observed': [[float(x) for x in la], [float(x) for x in lb]], 'why': ''})
+    except Exception as e:  # noqa
+        out.append({'function': 'segment.evaluate / hierarchy.lmeasure', 'relation': 'valid input with %d labels does not raise' % k, 'input': {'n_labels': k},
+                    'observed': type(e).__name__ + ': ' + str(e)[:200], 'why': ''})
+    return out
+
+
+@_quiet
 def sw_ari_large(rng, n):
     """ARI / Rand / pairwise on a LONG annotation with a fine frame grid (counts beyond 2**31): equals the textbook formula
     computed with exact integers (C16; guards against fixed-width integer arithmetic)"""
@@ -339,7 +411,7 @@ def sw_ari_large(rng, n):
     return out
 
 
-SWEEPS = [sw_ari_large, sw_segment_relabel, sw_evaluate_ranges, sw_multipitch_self, sw_beat, sw_pattern_alignment_tempo, sw_events, sw_transcription, sw_melody, sw_multipitch, sw_hierarchy, sw_segment, sw_keychord, sw_chord, sw_intervals]
+SWEEPS = [sw_ari_large, sw_segment_relabel, sw_many_labels, sw_evaluate_ranges, sw_multipitch_self, sw_beat, sw_pattern_alignment_tempo, sw_events, sw_transcription, sw_melody, sw_multipitch, sw_hierarchy, sw_segment, sw_keychord, sw_chord, sw_intervals]
 
 
 def register(fn):
